@@ -13,19 +13,19 @@ def needed_params(prog):
     for o in prog["ops"]:
         if o["op"] in ("flow", "udeath"):
             progutil.params_in(o["param"], acc)
-        elif o["op"] == "req" and o["req"]["type"] == "func":
-            progutil.params_in(o["req"]["params"], acc)
+        elif o["op"] == "req" and o["req"]["type"] == "func" and int(o["req"]["fn"]) in (0, 1):
+            progutil.params_in(o["req"]["params"][:1], acc)      # (function 2 of the library takes no parameter)
         elif o["op"] == "pop":
             progutil.params_in(o["dist"], acc)
     return sorted(acc)
 
 
-def history(g, solver, needed=()):
+def history(g, solver, needed=(), zeta=False):
     r = g.rng
     # non-dyadic values: sums and products are then inexact in floating point, so an order of evaluation
     # that changes with history or hash seed shows in the last bits
-    pool = [{k: r.choice(["1/3", "2/7", "3/10", "1/5", "7/9", "1/2", "4/11"]) for k in ("beta", "gamma", "kappa", "mu")}
-            for _ in range(3)]
+    pool = [{k: r.choice(["1/3", "2/7", "3/10", "1/5", "7/9", "1/2", "4/11"])
+             for k in ("beta", "gamma", "kappa", "mu") + (("zeta",) if zeta else ())} for _ in range(3)]
     calls, nh = [], 0
     for _ in range(r.randint(3, 7)):
         c = r.random()
@@ -45,13 +45,13 @@ def history(g, solver, needed=()):
                 full = r.choice(pool)
                 part = {k: v for k, v in full.items() if r.random() < 0.5}
                 calls.append({"call": "run", "solver": solver, "rebuild": False, "params": part})
-    if needed and r.random() < 0.3 and not any(x["call"] == "set_defaults" for x in calls):
+    if needed and r.random() < (0.7 if zeta else 0.3) and not any(x["call"] == "set_defaults" for x in calls):
         # a call that omits a needed parameter after complete calls: must fail as on a fresh object, not reuse old values
         full = r.choice(pool)
         k = r.choice(list(needed))
         calls.append({"call": "run", "solver": solver, "rebuild": False, "params": {a: b for a, b in full.items() if a != k}})
     # make sure some call repeats an earlier one after other parameter values were used
-    runs = [x for x in calls if x["call"] == "run" and len(x["params"]) == 4]
+    runs = [x for x in calls if x["call"] == "run" and len(x["params"]) == (5 if zeta else 4)]
     if runs:
         calls.append(dict(runs[0], rebuild=False))
     return calls
@@ -66,8 +66,14 @@ def run(tier, seed):
         p = g.program({"requests": True, "nsteps": 2, "nonlinear": nonlin, "state_rates": nonlin and g.rng.random() < 0.5,
                        "nstrat": g.rng.choice([0, 1, 2, 2]), "h": g.rng.choice(["1/4", "1/2"])})
         solver = "euler" if p["nonlinear"] else g.rng.choice(["euler", "rk4"])
+        # function outputs get a parameter of their own: it reaches the results through the derived-output graph only
+        zeta = False
+        for o in p["ops"]:
+            if o["op"] == "req" and o["req"]["type"] == "func" and int(o["req"]["fn"]) in (0, 1):
+                o["req"]["params"] = [{"p": "zeta"}] + list(o["req"]["params"][1:])
+                zeta = True
         base = checklib.strip_meta(dict(p, obs=[]))
-        calls = history(g, solver, needed_params(base))
+        calls = history(g, solver, (["zeta"] if zeta else []) or needed_params(base), zeta)
         p["obs"] = [{"obs": "struct"}, {"obs": "history", "calls": calls, "program": base},
                     {"obs": "oracle", "name": "c11", "calls": calls, "program": base}]
         progs.append(p)
